@@ -408,7 +408,7 @@ func isConnDead(c *imapclient.Client) bool {
 func execFetch(cn *conn, cases []*fetchCase) []outcome {
 	outs := make([]outcome, len(cases))
 	if err := cn.ensureSelected(); err != nil {
-		run.EngineError("benign SELECT failed: %v", err)
+		return setupFailed(len(cases), err)
 	}
 	first := cases[0]
 	extended := first.bsReq == 2
@@ -535,6 +535,15 @@ func execFetch(cn *conn, cases []*fetchCase) []outcome {
 	}
 	if dead {
 		cn.kill()
+	}
+	return outs
+}
+
+// setupFailed: the benign SELECT that precedes a selected-state command did not come through.
+func setupFailed(n int, err error) []outcome {
+	outs := make([]outcome, n)
+	for k := range outs {
+		outs[k] = outcome{Key: "setup:" + errClass(err), Detail: map[string]interface{}{"error": err.Error(), "note": "benign SELECT INBOX failed"}}
 	}
 	return outs
 }
